@@ -20,6 +20,7 @@ fn options_from(v: &serde_json::Value) -> GraphQLClientCodegenOptions {
     if let Some(b) = v["skip_serializing_none"].as_bool() { o.set_skip_serializing_none(b); }
     if let Some(s) = v["custom_scalars_module"].as_str() { if let Ok(p) = syn::parse_str(s) { o.set_custom_scalars_module(p); } }
     if let Some(a) = v["extern_enums"].as_array() { o.set_extern_enums(a.iter().filter_map(|x| x.as_str().map(|s| s.to_string())).collect()); }
+    if let Some(s) = v["module_visibility"].as_str() { if let Ok(vis) = syn::parse_str::<syn::Visibility>(s) { o.set_module_visibility(vis); } }
     if let Some(s) = v["serde_path"].as_str() { if let Ok(p) = syn::parse_str(s) { o.set_serde_path(p); } }
     o
 }
